@@ -57,6 +57,7 @@ pub fn sim_spec() -> impl Strategy<Value = SimSpec> {
 		prop_oneof![6 => Just(vec![]), 1 => proptest::collection::vec(0u8..4, 1..2)],
 	)
 		.prop_map(|(children, spawn_fail, kill_fail, signal_fail)| SimSpec {
+			async_api: (children.len() + spawn_fail.len() + kill_fail.len()) % 3 == 1,
 			children,
 			spawn_fail,
 			kill_fail,
